@@ -79,6 +79,23 @@ def callable_consumed(body, bb, t):
     return "bad", "%s does not hand the callable's error back" % n.split("<")[0].split("::")[-1] if n.split("<")[0].split("::")[-1] else n
 
 
+def _result_err_ty(ty):
+    """the error type argument of `..Result<T, E>` (split at the top-level comma: T may itself have generic arguments)"""
+    i = ty.find("Result<")
+    if i < 0 or not ty.endswith(">"):
+        return None
+    inner = ty[i + len("Result<"):-1]
+    depth = 0
+    for k, ch in enumerate(inner):
+        if ch in "<([":
+            depth += 1
+        elif ch in ">)]":
+            depth -= 1
+        elif ch == "," and depth == 0:
+            return inner[k + 1:].strip()
+    return None
+
+
 def is_result_local(body, l):
     ty = body.local_ty(l)
     return ty.startswith("std::result::Result<") and any(e in ty for e in ERR_TYPES)
@@ -166,13 +183,19 @@ def disciplined(body, local, depth=0, seen=None):
         elif kind in ("discr", "switch", "proj", "ref"):
             if kind == "ref":
                 # a borrow handed to a call (e.g. is_ok(&r)); look at the borrower
-                verdicts.append(disciplined(body, x["lhs"]["l"], depth + 1, seen) if not x["lhs"]["p"] else ("ok", "borrowed"))
+                vb = disciplined(body, x["lhs"]["l"], depth + 1, seen) if not x["lhs"]["p"] else ("ok", "borrowed")
+                if vb[0] == "bad" and re.search(r"masked by \.(is_ok|is_err)\(\)$", vb[1]):
+                    vb = ("inspect", vb[1])     # `if r.is_ok() {..}` only looks; whether the error is propagated is decided by the other uses of r
+                verdicts.append(vb)
             elif kind == "discr":
                 verdicts.append(check_match(body, local, b))
             else:
                 verdicts.append(("ok", kind))
         elif kind == "drop":
             verdicts.append(("bad", "result dropped without being examined"))
+    if any(v[0] == "inspect" for v in verdicts):
+        propagated = any(v[0] == "ok" and v[1] in ("?", "match", "residual", "returned") for v in verdicts)
+        verdicts = [v for v in verdicts if v[0] != "inspect"] if propagated else [("bad", v[1]) if v[0] == "inspect" else v for v in verdicts]
     order = {"bad": 0, "panic": 1, "ok": 2}
     # a value examined by an explicit match is fine even though it is dropped afterwards
     if any(v[0] == "ok" and v[1] in ("?", "match", "residual", "returned") for v in verdicts):
@@ -239,6 +262,22 @@ def err_arm(body, local, bb):
     return err_t
 
 
+def _def_call_block(body, local, depth=0):
+    """block of the call whose result `local` holds, following whole-value moves of uniquely assigned locals"""
+    if depth > 6:
+        return None
+    for b_ in range(body.n):
+        t_ = body.term(b_)
+        if t_["k"] == "call" and not t_["dest"]["p"] and t_["dest"]["l"] == local:
+            return b_
+    defs = [s_ for _, _, s_ in body.stmts() if s_["k"] == "assign" and s_["lhs"]["l"] == local and not s_["lhs"]["p"]]
+    if len(defs) == 1 and defs[0]["rv"]["k"] == "use":
+        q = op_place(defs[0]["rv"]["op"])
+        if q is not None and not q["p"]:
+            return _def_call_block(body, q["l"], depth + 1)
+    return None
+
+
 def check_match(body, local, bb):
     """Explicit match on a Result: the Err arm must reach a return on every path without passing an Ok assignment to _0."""
     t = body.term(bb)
@@ -251,6 +290,19 @@ def check_match(body, local, bb):
     err_t = err_arm(body, local, bb)
     if err_t is None:
         return "ok", "match"
+    # path-sensitive first: start at the call, so that later re-tests of the same result (`r?` after `if let Err(..) = &r`, or the `?` on
+    # the value a combinator loop hands back) follow the Err outcome instead of forking again
+    defblk = _def_call_block(body, local)
+    if defblk is not None:
+        from engines.paths import TooManyPaths
+        try:
+            for p in enumerate_paths(body, start=defblk, max_visits=1, limit=3000):
+                via = any(p.blocks[i] == bb and p.blocks[i + 1] == err_t for i in range(len(p.blocks) - 1))
+                if via and p.end == "return" and classify_return(p) == "ok":
+                    return "bad", "the Err arm of an explicit match reaches an Ok return"
+            return "ok", "match"
+        except TooManyPaths:
+            pass
     for p in enumerate_paths(body, start=err_t, max_visits=1, limit=2000):
         if p.end != "return":
             continue
@@ -320,6 +372,12 @@ def run(ctx, configs=None):
                     if isinstance(v, tuple) and v[0] == "bin" and v[1] in ("Eq", "Ne") and T.is_const_int(v[3], 0) and \
                             T.contains(v[2], lambda x: T.is_call(x, r"std::io::Read>::read$|^std::io::Read::read$")):
                         conds["read==0"] = truth if v[1] == "Eq" else not truth
+                    # `match (read, self.remaining) { (0, 0) => .., (0, n) => .., _ => .. }`: the integers themselves are switched on
+                    if zero_t is not None and isinstance(v, tuple) and v[0] != "bin" and not T.is_call(v, r"is_empty$"):
+                        if T.contains(v, lambda x: T.is_call(x, r"std::io::Read>::read$|^std::io::Read::read$")) and (v[0] in ("okpayload", "field", "variant", "cast") or T.is_call(v, r"Read::read$")):
+                            conds["read==0"] = not truth
+                        elif T.is_call(v, r"Vec::<T, A>::len$") and T.is_field(T.peel(v[2][0]), "bytes"):
+                            conds["bytes.is_empty"] = not truth
                     if T.is_call(v, r"Vec::<T, A>::is_empty$") and T.is_field(T.peel(v[2][0]), "bytes"):
                         conds["bytes.is_empty"] = truth
                     if isinstance(v, tuple) and v[0] == "bin" and v[1] in ("Eq", "Ne") and T.is_const_int(v[3], 0) and \
@@ -399,9 +457,8 @@ def run(ctx, configs=None):
                 if len(ga) == 2 and "MysqlShim<" in ga[1]:
                     n += 1
                     # residual error type must be textually the function's error type
-                    m1 = re.search(r"Result<.*?, (.*)>$", ga[0])
-                    m2 = re.search(r"Result<std::convert::Infallible, (.*)>$", ga[1])
-                    ok = bool(m1 and m2 and m1.group(1) == m2.group(1))
+                    e1, e2 = _result_err_ty(ga[0]), _result_err_ty(ga[1])
+                    ok = bool(e1 and e2 and e1 == e2)
                     ctx.ob("C19.shim-error-unchanged", ok, "a shim error is converted on the way out (%s -> %s)" % (ga[1], ga[0]), fn=b.path,
                            construct="residual-conversion", where=b.where(bb))
         # every shim callback result: its error reaches `?` / the return slot / an explicit match, never an error-converting adaptor
@@ -422,6 +479,10 @@ def run(ctx, configs=None):
             if p.end != "return":
                 continue
             rv = p.return_value()
+            if rv[0] == "call" and "from_residual" in rv[1] and T.contains(rv, lambda x: isinstance(x, tuple) and x and x[0] == "errresidual" and T.is_call(x[1], r"MysqlShim::after_authentication$")):
+                # `verdict?`: the residual of the callback's own result (that `?` is the identity on the error type is checked above)
+                n_exp += 1
+                ctx.ob("C19.shim-error-unchanged", True, "", fn=fi.path, construct="explicit-return", where=fi.where(p.blocks[-1]), nontrivial=False)
             if rv[0] == "agg" and rv[3] == "Err":
                 pay = rv[4][0]
                 if T.contains(pay, lambda x: T.is_call(x, r"MysqlShim::after_authentication$")):
@@ -429,7 +490,7 @@ def run(ctx, configs=None):
                     ok = pay[0] == "errpayload" and T.is_call(pay[1], r"MysqlShim::after_authentication$")
                     ctx.ob("C19.shim-error-unchanged", ok, "the authentication failure returns %s instead of the shim's error" % term_str(pay)[:100],
                            fn=fi.path, construct="explicit-return", where=fi.where(p.blocks[-1]))
-        ctx.floor("C19.shim-error-unchanged", "explicit shim-error returns in the handshake", n_exp, 1)
+        ctx.floor("C19.shim-error-unchanged", "returns of the authentication error in the handshake", n_exp, 1)
 
         # ---- no-callback-after-failure --------------------------------------------------------
         for b in (roles.f_init, roles.f_run):
